@@ -78,13 +78,17 @@ func (c15Engine) Gen(t *rapid.T, tier string) any {
 			if cc.Events[i].Kind != 5 {
 				continue
 			}
+			// any event of the pool that this request references only "may"-wise
+			// (a newer version of a referenced address): drop the address references
+			mayAny := false
+			for j := range evs {
+				if delRefs(evs[i], evs[j]) == refMay {
+					mayAny = true
+				}
+			}
 			var keep []cacheRef
 			for _, r := range cc.Events[i].Refs {
-				if !r.Bogus && r.Target < len(evs) && delRefs(evs[i], evs[r.Target]) == refMay {
-					changed = true
-					continue
-				}
-				if !r.Bogus && r.Tag == "a" && ref.ClassOf(evs[r.Target].Kind) != ref.Addressable {
+				if r.Tag == "a" && (mayAny || (!r.Bogus && ref.ClassOf(evs[r.Target].Kind) != ref.Addressable)) {
 					changed = true
 					continue
 				}
